@@ -1001,14 +1001,12 @@ type SetStartingBlockHeightAction struct{}
 func (s *SetStartingBlockHeightAction) Execute(services *SwapServices, swap *SwapData) EventType {
 	onchain, _, validator, err := services.getOnChainServices(swap.GetChain())
 	if err != nil {
-		swap.LastErr = err
-		return Event_ActionFailed
+		return swap.HandleError(err)
 	}
 
 	now, err := onchain.GetBlockHeight()
 	if err != nil {
-		swap.LastErr = err
-		return Event_ActionFailed
+		return swap.HandleError(err)
 	}
 
 	// Liquid v7 starts its short payment window before the peer can broadcast
@@ -1016,13 +1014,11 @@ func (s *SetStartingBlockHeightAction) Execute(services *SwapServices, swap *Swa
 	if swap.GetChain() == l_btc_chain && swap.GetProtocolVersion() == PEERSWAP_PROTOCOL_VERSION {
 		policy, err := swap.getTimelockPolicy()
 		if err != nil {
-			swap.LastErr = err
-			return Event_ActionFailed
+			return swap.HandleError(err)
 		}
 		if err := checkPaymentWindow(swap, now, policy); err != nil {
-			swap.LastErr = err
 			swap.CancelMessage = err.Error()
-			return Event_ActionFailed
+			return swap.HandleError(err)
 		}
 		return NoOp
 	}
@@ -1031,9 +1027,9 @@ func (s *SetStartingBlockHeightAction) Execute(services *SwapServices, swap *Swa
 	if swap.StartingBlockHeight == 0 {
 		swap.StartingBlockHeight = now
 	} else if now >= swap.StartingBlockHeight+(validator.GetCSVHeight()/2) {
-		swap.LastErr = fmt.Errorf("too close to csv")
-		swap.CancelMessage = swap.LastErr.Error()
-		return Event_ActionFailed
+		err := fmt.Errorf("too close to csv")
+		swap.CancelMessage = err.Error()
+		return swap.HandleError(err)
 	}
 
 	return NoOp
